@@ -164,6 +164,15 @@ func (ctx *formatCtx) insertIdents(exprs ...ast.Expr) {
 	}
 }
 
+// insertLambdaParams records the parameters of a lambda expression as local names.
+func (ctx *formatCtx) insertLambdaParams(params []*ast.Ident) {
+	for _, p := range params {
+		if p.Name != "_" {
+			ctx.insert(p.Name)
+		}
+	}
+}
+
 // insertFields records the parameter/result/receiver names of a function as local names.
 func (ctx *formatCtx) insertFields(lists ...*ast.FieldList) {
 	for _, flds := range lists {
